@@ -48,7 +48,9 @@ func init() {
 						{Name: "a2", Ops: []Op{{Op: "sub", H: "t", Tags: map[string]string{"k": "v"}}, {Op: "inc", H: "t", M: "c", V: 3}, {Op: "upd", H: "t", M: "g", V: 1}}},
 						// z1 holds a sub-scope from before Close: what it derives from that handle after Close is inert too
 						{Name: "z1", Ops: []Op{{Op: "sub", H: "old", Name: "o"}, {Op: "rootclose"}, {Op: "rootclose"}, {Op: "sub", H: "late", Name: "late"}, {Op: "inc", H: "late", M: "c", V: 7},
-							{Op: "sub", H: "late2", P: "old", Name: "x"}, {Op: "inc", H: "late2", M: "c", V: 7}, {Op: "sub", H: "late3", P: "old", Tags: map[string]string{"k": "w"}}, {Op: "rec", H: "late3", M: "t", V: 1}}},
+							{Op: "sub", H: "late2", P: "old", Name: "x"}, {Op: "inc", H: "late2", M: "c", V: 7}, {Op: "sub", H: "late3", P: "old", Tags: map[string]string{"k": "w"}}, {Op: "rec", H: "late3", M: "t", V: 1},
+							// "recording on old handles is harmless": metrics of every kind first requested on handles from before Close
+							{Op: "rec", H: "old", M: "t2", V: 1}, {Op: "inc", H: "old", M: "c2", V: 1}, {Op: "upd", H: "old", M: "g2", V: 1}, {Op: "hrec", H: "old", M: "h2", V: 1}, {Op: "rec", H: "root", M: "t3", V: 1}}},
 						{Name: "z2", Ops: []Op{{Op: "rootclose"}, {Op: "sub", H: "late", Name: "late2"}, {Op: "inc", H: "late", M: "c", V: 7}}},
 					}}})
 				// a root created without an interval behaves the same
